@@ -1,6 +1,6 @@
 SPECIFICATION Spec
 CONSTANTS
   MaxLen = 3
-  Times = {5, 9, 10, 11, 19, 20, 21, 29, 30, 31, 50, 69, 70, 71, 79, 80, 81, 89, 90, 91, 99, 100, 101}
+  Times = {5, 9, 10, 11, 19, 20, 21, 29, 30, 31, 50, 69, 70, 71, 79, 80, 81, 89, 90, 91, 99, 100, 101, 99999}
 INVARIANT RefSane
 CHECK_DEADLOCK FALSE
